@@ -339,6 +339,9 @@ func c04Cases(thorough bool) []c04Case {
 					if a.RawHash == nil && len(a.Password) < 30 {
 						wire := ref.Obfuscate([]byte(a.Password))
 						cs = append(cs, c04Case{DB: db, HS: valid, FirstTyp: ref.TLogin, Login: l, RawPw: append(append(append([]byte(nil), wire...), 0), wire...)})
+						// ... and with the zero byte in front (for an empty password: 00, 00 00 00)
+						cs = append(cs, c04Case{DB: db, HS: valid, FirstTyp: ref.TLogin, Login: l, RawPw: append([]byte{0}, wire...)},
+							c04Case{DB: db, HS: valid, FirstTyp: ref.TLogin, Login: l, RawPw: append(append([]byte{0}, wire...), 0, 0)})
 					}
 				}
 			}
